@@ -416,6 +416,19 @@ func (v *Value) Compare(b *Value) (int, error) {
 	}
 }
 
+// the == operator: an unset value is equal to nothing (not even to another
+// unset value), everything else is equal when Compare says so
+func (v *Value) Equals(b *Value) (bool, error) {
+	if v.Tag == ValueUnknown || b.Tag == ValueUnknown {
+		return false, nil
+	}
+	cmp, err := v.Compare(b)
+	if err != nil {
+		return false, err
+	}
+	return cmp == 0, nil
+}
+
 func (v *Value) Not() *Value {
 	var notValue Value
 	if v.isTruthy() {
